@@ -52,6 +52,7 @@ var (
 	c12wrongLen    = core.RegCounter("c12.wrong_length_encodings_offered_to_decoders")
 	c12skEdits     = core.RegCounter("c12.byzantine_secret_key_and_keypair_encodings")
 	c12reuse       = core.RegCounter("c12.transcript_objects_reused_across_verify_and_add")
+	c12recycled    = core.RegCounter("c12.tuples_also_decoded_into_receivers_used_before")
 )
 
 var c12altKinds = []string{"sig-bit", "marker-cleared", "s-plus-L", "R-negated", "R-top-bit", "R-swapped", "sig-truncated", "sig-extended", "other-context", "other-message", "other-key", "pk-bit", "pk-non-canonical", "s-plus-delta"}
@@ -215,6 +216,35 @@ func (s *c12Src) fresh() *sr25519.SigningTranscript {
 		x.Write(s.msg)
 		return sc.NewTranscriptXOF(x)
 	}
+}
+
+// c12companion is an honest (key, message, signature) of another signer, made once per worker.
+var c12companion *struct {
+	ctx          *sr25519.SigningContext
+	pk, msg, sig []byte
+}
+
+func c12GetCompanion() *struct {
+	ctx          *sr25519.SigningContext
+	pk, msg, sig []byte
+} {
+	if c12companion == nil {
+		kp, err := sr25519.GenerateKeyPair(NewDetReader(0xc12c))
+		if err != nil {
+			panic("harness: " + err.Error())
+		}
+		ctx := sr25519.NewSigningContext([]byte("c12 companion"))
+		msg := []byte("another signer on the same connection")
+		sig, err := kp.Sign(NewDetReader(0xc12d), ctx.NewTranscriptBytes(msg))
+		if err != nil {
+			panic("harness: " + err.Error())
+		}
+		c12companion = &struct {
+			ctx          *sr25519.SigningContext
+			pk, msg, sig []byte
+		}{ctx, marshalOwned(kp.PublicKey().MarshalBinary()), msg, marshalOwned(sig.MarshalBinary())}
+	}
+	return c12companion
 }
 
 type c12Tuple struct {
@@ -655,6 +685,12 @@ func runC12(e *Env, r *core.Run) {
 	}
 
 	// ---------------- decode + single verification ----------------
+	// Receivers that live as long as the run, as a connection handler that decodes every
+	// incoming key and signature into the same two objects has: what an object was used
+	// for before must not show in what it does after the next successful UnmarshalBinary.
+	var recPK sr25519.PublicKey
+	var recSig sr25519.Signature
+	recycle := t.W(2) == 1
 	for i, tp := range tuples {
 		if len(r.Main.Fails()) > 0 {
 			return
@@ -701,6 +737,32 @@ func runC12(e *Env, r *core.Run) {
 			got = lpk.Verify(tp.src.transcript(t.W(2) == 1), lsig)
 		} else {
 			r.Count(c12decRej)
+		}
+		if recycle {
+			if t.W(2) == 0 {
+				// the receivers' previous use: another signer's honest tuple
+				c := c12GetCompanion()
+				if recSig.UnmarshalBinary(c.sig) != nil || recPK.UnmarshalBinary(c.pk) != nil || !recPK.Verify(c.ctx.NewTranscriptBytes(c.msg), &recSig) {
+					r.Fail("object-reuse", "recycled-receiver-verify", "before tuple %d: another signer's honest tuple does not verify with receivers used for earlier tuples", i)
+					return
+				}
+			}
+			e1, e2 := recSig.UnmarshalBinary(tp.sig), recPK.UnmarshalBinary(tp.pk)
+			r.Count(c12recycled)
+			if (e1 == nil) != (serr == nil) || (e2 == nil) != (perr == nil) {
+				r.Fail("object-reuse", "recycled-receiver-decode", "tuple %d: UnmarshalBinary into receivers used for earlier tuples: sig err=%v pk err=%v, decoding into fresh objects: sig err=%v pk err=%v", i, e1 != nil, e2 != nil, serr != nil, perr != nil)
+				return
+			}
+			if e1 == nil && e2 == nil {
+				if !bytes.Equal(marshalOwned(recSig.MarshalBinary()), tp.sig) || !bytes.Equal(marshalOwned(recPK.MarshalBinary()), tp.pk) {
+					r.Fail("object-reuse", "recycled-receiver-remarshal", "tuple %d: receivers used for earlier tuples re-marshal to other bytes than they were just given", i)
+					return
+				}
+				if got2 := recPK.Verify(tp.src.fresh(), &recSig); got2 != got {
+					r.Fail("object-reuse", "recycled-receiver-verify", "tuple %d (%s): verification with receivers used for earlier tuples says %v, with freshly decoded objects %v", i, tp.how, got2, got)
+					return
+				}
+			}
 		}
 		r.Count(c12modelDec)
 		r.Ev("tuple%d %s ctx=%s msg=%s pk=%s sig=%s decode=%v verify=%v model=%v", i, tp.how, core.Hex8(tp.src.ctx), core.Hex8(tp.src.msg), core.Hex8(tp.pk), core.Hex8(tp.sig), tp.decodeOK, got, tp.want)
